@@ -1,5 +1,6 @@
 import PagexmlModel.Drv.Util
 import PagexmlModel.Model.C19
+import Std.Data.HashMap
 open Lean
 
 namespace Pagexml.Drv.C19
@@ -11,6 +12,31 @@ open Pagexml.C03 (Pt)
     Runtime `Float` lives in the driver only; no theorem mentions it (DESIGN §3.4). -/
 def mdtFloat (k a b : Int) : Int :=
   (Float.ofInt k * (Float.ofInt a / Float.ofInt b)).toInt64.toInt
+
+/-- the `mulDivTrunc` parameter as OBSERVED on the real code: rows `[k, a, b, r]` recorded from the real
+    `interpolate_points` while the case ran (`r = y_left - y` of the sample at `x = x_left + k` on a segment
+    with `a = y_left - y_right`, `b = x_right - x_left`).  C19 constrains an interpolated y only to lie between
+    the neighbouring points' y values — it names no rounding rule — and every theorem holds for every `mdt`
+    (C19_shift, …) or for every `mdt` with `MulDivTruncLaws` (C19_interp_grid, C19_text_height); so the model is
+    run with the implementation's own rounding (the harness checks the laws on every row), and everything
+    computed FROM the interpolated points is still compared exactly.  A triple that was not observed falls
+    back to the IEEE-double instance. -/
+def mdtTable (tbl : Std.HashMap (Int × Int × Int) Int) (k a b : Int) : Int :=
+  match tbl.get? (k, a, b) with
+  | some r => r
+  | none => mdtFloat k a b
+
+def decMdt (args : Json) : Dec MulDivTrunc :=
+  match fieldOpt args "mdt_table" with
+  | none => return mdtFloat
+  | some j => do
+    let rows ← asList (asList asInt) j
+    let mut tbl : Std.HashMap (Int × Int × Int) Int := {}
+    for row in rows do
+      match row with
+      | [k, a, b, r] => tbl := tbl.insert (k, a, b) r
+      | _ => throw s!"mdt_table row is not [k, a, b, r]: {row}"
+    return mdtTable tbl
 
 def decPt (j : Json) : Dec Pt := asPair asInt asInt j
 def decPts (j : Json) : Dec (List Pt) := asList decPt j
@@ -73,7 +99,7 @@ def jHeightStats (h : HeightStats) : Json :=
 def jEvent (e : Event) : Json := Json.arr #[jStr e.1, jStr e.2.1, jQ e.2.2]
 
 def handle (op : String) (args : Json) : Dec Json := do
-  let mdt := mdtFloat
+  let mdt ← decMdt args
   match op with
   | "mdt" =>
     let k ← intF args "k"
